@@ -13,7 +13,7 @@ func process2(obj any, mergeFrom *Document, mergeFromDocs []*Document, ec *EvalC
 	depth++
 
 	if depth > 1000 {
-		return nil, fmt.Errorf("%#v: %w", obj, ErrCircularRef)
+		return nil, fmt.Errorf("%T: %w", obj, ErrCircularRef)
 	}
 
 	switch obj2 := obj.(type) {
@@ -388,7 +388,7 @@ func process2String(obj string, mergeFrom *Document, mergeFromDocs []*Document, 
 	// Interpolation re-evaluates referenced strings through this function
 	// directly, so the recursion guard of process2 has to be repeated here.
 	if depth > 1000 {
-		return nil, fmt.Errorf("%#v: %w", obj, ErrCircularRef)
+		return nil, fmt.Errorf("%T: %w", obj, ErrCircularRef)
 	}
 
 	if strings.HasPrefix(obj, `$"`) && strings.HasSuffix(obj, `"`) {
